@@ -97,7 +97,28 @@ CHECKS.update({
     ),
 })
 
-NOT_YET = {}
+CHECKS.update({
+    "C09": dict(
+        technique="Lean 4 proof of the frame property of the two mechanisms that write into possibly shared structure (label memoisation over cached trees; dSGE on-demand extension is prefix-monotone; GE/SGE mapping keeps the genotype) + deep before/after snapshots of every live individual around every operator, step and GP generation on the implementation",
+        text="Theorems (Props/C09.lean, 4): relabelling a fully labelled (parental) subtree returns it unchanged, cache for cache, and never changes structure; dynamic SGE mapping only appends genes (existing genes never change); GE/SGE mapping leaves the genotype as it was. The rest of the property (object identity, sharing graph, cached phenotype / fitness, step combinators, arbitrarily long generation sequences) is decided on the implementation: structure, every node's metadata and synthesis context, the id()-sharing graph, genes and caches of every live individual are snapshotted before and re-validated after every call and after whole GP runs.",
+        note="PARTIAL: the functional Lean models have immutable values, so 'inputs unchanged' is by construction there; Python object identity and aliasing cannot be exhibited by the model beyond the two mechanisms above. Trusted: Lean kernel + standard axioms; harness snapshot code.",
+        design="5/C09",
+    ),
+    "C10": dict(
+        technique="Lean 4 proof on a model with the grammar as explicit mutable state (the retry loop of create_node, aliased vs copied list) for all failure patterns, deciders and histories + before/after snapshots of every grammar observable around every API call incl. failing and backtracking ones, and level-A comparison of the grammar after the history with the model's analysis",
+        text="Theorems (Props/C10.lean, 6): the repaired retry loop leaves the grammar unchanged for every pattern of failing productions and every decider, over any history of operations; hence an expansion's outcome does not depend on earlier operations; the pinned (aliasing) loop returns the same production but provably removes it from the grammar, making a previously creatable program uncreatable (machine-checked witness).",
+        note="In the synthesis model the grammar is an immutable argument (no function returns a grammar); only the aliasing hazard is modelled with state. Class-level __gengy__ dicts are rewritten by extract_grammar (extraction, not synthesis: C19). Trusted: Lean kernel + standard axioms.",
+        design="5/C10",
+    ),
+})
+
+NOT_YET = {
+    "C04": "check built (exhaustive-script set comparison with the Lean enumerator passes; one open finding); theorems (soundness corollaries, enumerator correctness, completeness of grow) are being proved - claimed once Props/C04.lean holds them",
+    "C08": "check built (in-process set-order permutations + fresh interpreters with different PYTHONHASHSEED / padding / import order); order-independence theorems are being proved - claimed once Props/C08.lean holds them",
+    "C15": "model, theorems and correspondence are being completed by a parallel work stream (population-size invariance over the Step tree)",
+    "C16": "model, theorems and correspondence are being completed by a parallel work stream (elitism top-k / monotone best)",
+    "C17": "model, theorems and correspondence are being completed by a parallel work stream (tournament / lexicase soundness)",
+}
 
 
 def main():
